@@ -486,6 +486,231 @@ def build_fault(rng, cid, n_subj):
     return None
 
 
+# ---------------------------------------------------------------- bodies that yield functions, bound methods, containers, regexes
+# "yields that body's value": whatever kind of value the selected body evaluates to comes out of the match unchanged.  A
+# function or a bound method can be called on the spot (dispatch tables), also when it was returned from a function or came
+# out of a nested match; a container is the very same container (a store through the result shows in the original and in
+# nothing else); a regex still matches.  Python mirrors of the functions and methods give the documented output.
+import math, re as _re
+
+YFUNS = ("function dbl(v) { return v * 2 }\nfunction inc(v) { return v + 100 }\nfunction neg(v) { return 0 - v }\n"
+         "function pair(v) { return [v, \"p\"] }\nfunction idf(v) { return v }\n")
+YMIRROR = {"dbl": lambda v: v * 2, "inc": lambda v: v + 100, "neg": lambda v: 0 - v, "pair": lambda v: [v, "p"]}
+YKEYS = ["dbl", "inc", "neg", "pair", "a", "", "1", "10", 1.0, 2.0, 10.0, 0.0, True, None]
+
+
+def _go_round(x):
+    return math.copysign(math.floor(abs(x) + 0.5), x)
+
+
+def _select(k, keys):
+    """index of the first literal in keys that == k, else None"""
+    for i, lit in enumerate(keys):
+        if pyref.binop("==", k, lit):
+            return i
+    return None
+
+
+def build_yield(rng, cid):
+    kind = rng.choice(["dispatch", "dispatch", "dispatch", "returned", "method0", "method0", "method1", "mutator", "bound-name", "nested",
+                       "native", "shared-array", "shared-object", "store-through", "bound-element", "regex", "printed"])
+    doc = {"n": 1}
+    head = [YFUNS]
+    body, out = [], []
+    outcome = "ok"
+
+    def subject_src(k):
+        """the subject expression for key k: a literal, a variable, a member of the document, a call"""
+        how = rng.choice(["lit", "var", "doc", "call"])
+        if how == "lit":
+            return pyref.literal(k)
+        if how == "var":
+            body.append(" key = %s" % pyref.literal(k))
+            return "key"
+        if how == "doc":
+            doc["k"] = k
+            return "$.k"
+        return "idf(%s)" % pyref.literal(k)
+
+    def table(nmin=2):
+        """distinct literal keys (strings, numbers, booleans, null) in a random order, and a key to look up"""
+        keys = rng.sample(YKEYS, rng.randint(nmin, 4))
+        k = rng.choice(keys) if rng.random() < 0.8 else rng.choice(YKEYS)
+        return keys, k
+
+    def cases_src(keys, bodies, default=None):
+        parts = ["%s => %s" % (pyref.literal(kk), b) for kk, b in zip(keys, bodies)]
+        if default is not None:
+            parts.append("%s => %s" % (rng.choice(["_", "other"]), default))
+        sep = rng.choice([", ", ",\n   "])
+        return "{ " + sep.join(parts) + " }"
+
+    if kind in ("dispatch", "returned", "nested", "printed"):
+        keys, k = table()
+        fns = [rng.choice(list(YMIRROR)) for _ in keys]
+        dflt = rng.choice(list(YMIRROR))
+        arg = rng.choice([1.0, 2.0, 5.0, 0.5, 10.0, 0.0])
+        i = _select(k, keys)
+        fn = fns[i] if i is not None else dflt
+        want = YMIRROR[fn](arg)
+        body.append(' print "start"')
+        out.append("start")
+        if kind == "dispatch":
+            m = "match (%s) %s" % (subject_src(k), cases_src(keys, fns, dflt))
+            call = rng.choice(["(%s)(%s)", "%s(%s)"]) % (m, pyref.literal(arg))
+            body.append(' print "r", %s' % call)
+            out.append("r " + pyref.pretty(want))
+        elif kind == "returned":
+            head.append("function pick(k) { return match (k) %s }\n" % cases_src(keys, fns, dflt))
+            body.append(' print "r", pick(%s)(%s), pick(%s)(%s)' % (subject_src(k), pyref.literal(arg), pyref.literal(keys[0]), pyref.literal(arg)))
+            out.append("r %s %s" % (pyref.pretty(want), pyref.pretty(YMIRROR[fns[0]](arg))))
+        elif kind == "nested":
+            inner = "match (%s) %s" % (subject_src(k), cases_src(keys, fns, dflt))
+            osub, opat = rng.choice([("1", "1"), ('"x"', '"x"'), ("true", "true"), ("1", "t"), ('"x"', "t"), ("true", "1"), ("1", '"1"')])
+            m = "match (%s) { %s => %s, _ => %s }" % (osub, opat, inner, rng.choice(list(YMIRROR)))
+            body.append(' print "r", %s(%s)' % (m, pyref.literal(arg)))
+            out.append("r " + pyref.pretty(want))
+        else:
+            # the function value itself, printed; and the match that selects nothing
+            m = "match (%s) %s" % (subject_src(k), cases_src(keys, fns, None))
+            body.append(' print "r", %s' % m)
+            out.append("r " + ("<function>" if i is not None else "null"))
+    elif kind in ("method0", "method1", "mutator"):
+        arr = [rng.choice([3.0, 1.0, 2.0, 10.0, 0.5, 7.0]) for _ in range(rng.randint(1, 5))]
+        st = rng.choice(["abc", "a,b", "Mixed,Case", "x", "k,v,w"])
+        num = rng.choice([2.5, 3.7, -1.2, 4.0, 0.49])
+        body += [" a = %s" % pyref.literal(arr), " s = %s" % pyref.literal(st), " n = %s" % pyref.literal(num), ' print "start"']
+        out.append("start")
+        if kind == "method0":
+            pool = {"a.length": float(len(arr)), "a.sort": sorted(arr), "s.upper": st.upper(), "s.lower": st.lower(), "s.length": float(len(st)),
+                    "n.floor": float(math.floor(num)), "n.ceil": float(math.ceil(num)), "n.round": _go_round(num)}
+            args, argv = "", None
+        elif kind == "method1":
+            probe = rng.choice(arr + [4.0, "1"])
+            pool = {"a.contains": None, "s.split": None, "a.push": None}
+            args, argv = None, probe
+        else:
+            pool = {"a.pop": None, "a.popfirst": None}
+            args, argv = "", None
+        keys, k = table()
+        names = [rng.choice(list(pool)) for _ in keys]
+        dflt = rng.choice(list(pool))
+        i = _select(k, keys)
+        name = names[i] if i is not None else dflt
+        if kind == "method1":
+            if name == "s.split":
+                argv = ","
+            args = pyref.literal(argv)
+            want = (any(pyref.binop("==", argv, x) for x in arr) if name == "a.contains" else st.split(",") if name == "s.split" else arr + [argv])
+            if name == "a.push":
+                arr = arr + [argv]
+        elif kind == "mutator":
+            want = arr[-1] if name == "a.pop" else arr[0]
+            arr = arr[:-1] if name == "a.pop" else arr[1:]
+        else:
+            want = pool[name]
+        m = "match (%s) %s" % (subject_src(k), cases_src(keys, names, dflt))
+        body.append(' print "r", %s(%s)' % (rng.choice(["(%s)", "%s"]) % m, args))
+        out.append("r " + pyref.pretty(want))
+        body.append(' print "a", a, s, n')
+        out.append("a %s %s %s" % (pyref.pretty(arr), st, pyref.pretty(num)))
+    elif kind == "bound-name":
+        st = rng.choice(["abc", "Mixed", "x y"])
+        form = rng.choice(["fn", "str", "elem", "arr"])
+        body.append(' print "start"')
+        out.append("start")
+        if form == "fn":
+            f = rng.choice(list(YMIRROR))
+            # (a function cannot be an element of an array literal: only the whole subject is one)
+            body.append(' print "r", match (%s) { [z] => dbl, fn => fn }(3), match (%s) { g => match (g) { h => h } }(4)' % (f, f))
+            out.append("r %s %s" % (pyref.pretty(YMIRROR[f](3.0)), pyref.pretty(YMIRROR[f](4.0))))
+        elif form == "str":
+            body.append(' print "r", match (%s) { t => t.upper }(), match (%s) { t => t.length }()' % (pyref.literal(st), pyref.literal(st)))
+            out.append("r %s %s" % (st.upper(), pyref.pretty(float(len(st)))))
+        elif form == "elem":
+            body.append(' print "r", match ([1, %s]) { [1, t] => t.lower, [_, t] => t.upper }()' % pyref.literal(st))
+            out.append("r " + st.lower())
+        else:
+            body.append(' print "r", match ([[5, 6, 7], 2]) { [l, 3] => l.pop, [l, 2] => l.length, _ => dbl }()')
+            out.append("r 3")
+    elif kind == "native":
+        keys, k = table()
+        i = _select(k, keys)
+        body.append(' print "start"')
+        out.append("start")
+        if rng.random() < 0.5:
+            body.append(' print "r", match (%s) %s("12.5") + 1' % (subject_src(k), cases_src(keys, ["num"] * len(keys), "num")))
+            out.append("r 13.5")
+        else:
+            body.append(' match (%s) %s("%%s|%%s|", "x", "y")' % (subject_src(k), cases_src(keys, ["printf"] * len(keys), "printf")))
+            body.append(' print "after"')
+            out.append("x|y|after")
+    elif kind in ("shared-array", "shared-object", "store-through"):
+        keys, k = table()
+        arrs = {"a": [1.0, 2.0, 3.0], "b": ["x", "y"], "c": [[1.0], 2.0]}
+        objs = {"o": {"k": 1.0}, "q": {"k": "v", "j": [1.0]}, "u": {}}
+        use = arrs if kind == "shared-array" or (kind == "store-through" and rng.random() < 0.5) else objs
+        for nm, v in list(arrs.items()) + list(objs.items()):
+            body.append(" %s = %s" % (nm, pyref.literal(v)))
+        names = [rng.choice(list(use)) for _ in keys]
+        dflt = rng.choice(list(use))
+        i = _select(k, keys)
+        name = names[i] if i is not None else dflt
+        m = "match (%s) %s" % (subject_src(k), cases_src(keys, names, dflt))
+        tgt = use[name]
+        if use is arrs:
+            j = rng.randrange(len(tgt))
+            if kind == "store-through":
+                body.append(' %s[%d] = "w"' % (m, j))
+            else:
+                body += [" m = %s" % m, ' m[%d] = "w"' % j]
+            tgt[j] = "w"
+        else:
+            key = rng.choice(["k", "z"])
+            if kind == "store-through":
+                body.append(' %s.%s = "w"' % (m, key))
+            else:
+                body += [" m = %s" % m, ' m.%s = "w"' % key]
+            tgt[key] = "w"
+        body.append(' print "r", a, b, c, o, q, u')
+        out.append("r " + " ".join(pyref.pretty(v) for v in list(arrs.values()) + list(objs.values())))
+        if kind != "store-through":
+            body.append(' print "m", m')
+            out.append("m " + pyref.pretty(tgt))
+    elif kind == "bound-element":
+        t = [[1.0, 2.0], {"k": 1.0}, 3.0]
+        body.append(" t = %s" % pyref.literal(t))
+        if rng.random() < 0.5:
+            body += [" m = match (t) { [first, _] => 0, [first, _, 3] => first }", ' m[0] = "w"']
+            t[0][0] = "w"
+        else:
+            body += [" m = match (t) { [_, ob, _] => ob }", ' m.z = "w"']
+            t[1]["z"] = "w"
+        body.append(' print "r", t')
+        out.append("r " + pyref.pretty(t))
+    else:
+        keys, k = table()
+        pats = ["a+", "^b", "c$", "[0-9]", "x|y"]
+        regs = [rng.choice(pats) for _ in keys]
+        dflt = rng.choice(pats)
+        i = _select(k, keys)
+        rx = regs[i] if i is not None else dflt
+        subs = [rng.choice(["caab", "b", "abc", "x1", "", "yc"]) for _ in range(3)]
+        m = "match (%s) %s" % (subject_src(k), cases_src(keys, ["/%s/" % x for x in regs], "/%s/" % dflt))
+        if rng.random() < 0.5:
+            body.append(" r = %s" % m)
+            body.append(' print "r", %s' % ", ".join("%s ~ r" % pyref.literal(x) for x in subs))
+        else:
+            body.append(' print "r", %s' % ", ".join("%s ~ %s" % (pyref.literal(x), "(%s)" % m) for x in subs[:1]))
+            subs = subs[:1]
+        out.append("r " + " ".join(pyref.pretty(bool(_re.search(rx, x))) for x in subs))
+    docj = V.to_json(doc)
+    prog = "".join(head) + "{\n" + "\n".join(body) + "\n}"
+    meta = {"prog": prog, "doc": docj, "subject": "(a body that yields a %s)" % kind, "cases": [l.strip() for l in body if "match (" in l],
+            "expect_outcome": outcome, "expect_stdout": "".join(l + "\n" for l in out)}
+    return Case(cid, simple_run(cid, prog, [docj]), meta, True, ("yield", kind))
+
+
 FIXED = [
     ([1.0, 2.0], [[("arr", [("id", "x"), ("lit", 3.0)]), ("arr", [("id", "y"), ("lit", 2.0)])]]),
     ([[5.0, 6.0], 2.0], [[("arr", [("arr", [("id", "x"), ("lit", 9.0)]), ("id", "y")]), ("id", "z")]]),
@@ -521,7 +746,11 @@ class C19(Check):
             "whose cases AFTER the matching one hold literal patterns that cannot be evaluated (strings with an escape other than "
             "\\n \\t \\\\ or a trailing backslash, numbers too large to read; alone, among alternatives, inside nested array "
             "patterns shaped after the subject): never touched, on the first and on every later evaluation, and a run-stopping "
-            "fault when a top-level one is reached. non-trivial = >= 2 cases and >= 1 case with >= 2 alternatives")
+            "fault when a top-level one is reached; plus bodies that yield a user function, a native function, a bound method of an "
+            "array / string / number (dispatch tables over literal keys of every kind, called on the spot, returned from a function, out "
+            "of a nested match, through a pattern-bound name), a container (the same container: a store through the result or straight "
+            "through the match expression shows in the original only) or a regex (still matches), vs Python mirrors. "
+            "non-trivial = >= 2 cases and >= 1 case with >= 2 alternatives")
 
     def generate(self, rng, tier):
         n = 1200 if tier == "quick" else 60000
@@ -563,6 +792,8 @@ class C19(Check):
                             cl2[ci]["alts"] = list(perm)
                             cases.append(build(rng, "m%dp%d" % (k, pi), subj, cl2, via))
                         break
+        for k in range(340 if tier == "quick" else 8000):
+            cases.append(build_yield(rng, "y%d" % k))
         return cases
 
     def oracle(self, case, impl):
